@@ -23,6 +23,16 @@ def dec(v, dt):
     return int(v)
 
 
+def decq(v, dt):
+    """a QUERY value: the codes 999983 / 999985 stand for values the dtype cannot hold (1.5 asked of an int matrix, 2 of a
+    bool matrix) - no cell equals them and they are not the default, so no column may be reported"""
+    if v == 999983 and dt == 'int':
+        return 1.5
+    if v == 999985 and dt == 'bool':
+        return 2
+    return dec(v, dt)
+
+
 def enc(x, dt):
     ty, scale = DTYPES[dt]
     f = float(x) * scale
@@ -44,7 +54,7 @@ def reads(m, q, dt):
     for r in q['rows']:
         out['rows'].append([r, attempt(lambda: [enc(x, dt) for x in m[r]])])
     for r, v in q['civ']:
-        out['civ'].append([r, v, attempt(lambda: sorted(int(x) for x in m.col_indices_of_val(r, dec(v, dt))))])
+        out['civ'].append([r, v, attempt(lambda: sorted(int(x) for x in m.col_indices_of_val(r, decq(v, dt))))])
     return out
 
 
